@@ -1453,6 +1453,16 @@ class Authenticated(BaseClientHandler):
             await self.send_pending_notifications()
 
         self.fetch_while_pending_count = 0
+
+        # A mailbox selected with EXAMINE is read-only: fetching a message
+        # body must not set its `\Seen` flag, so treat every BODY[] as
+        # BODY.PEEK[].
+        #
+        if self.examine:
+            for fetch_att in cmd.fetch_atts:
+                fetch_att.peek = True
+            cmd.fetch_peek = True
+
         try:
             async with cmd.ready_and_okay(self.mbox):
                 msg_set = (
@@ -1525,6 +1535,11 @@ class Authenticated(BaseClientHandler):
                 raise No("There are pending EXPUNGEs.")
         else:
             await self.send_pending_notifications()
+
+        # A mailbox selected with EXAMINE is read-only.
+        #
+        if self.examine:
+            raise No("Mailbox is read-only")
 
         # We do not issue any messages to the client here. This is done
         # automatically when 'resync' is called because resync will examine
